@@ -41,7 +41,7 @@ class BetdaqDouble:
         self.rng = rng
         self.orders = {}
         self.next_id = 7000001
-        self.seq = 0
+        self.seq = 41_000_000  # (real sequence numbers are large; every message carries freshly parsed values)
         self.fail_next = None
         self.memo = {}
         self.remember = False
@@ -115,7 +115,8 @@ class BetdaqDouble:
     def poll(self):
         import copy
 
-        return [copy.deepcopy(o) for o in self.orders.values()]
+        # (as parsed from the wire: equal values are distinct objects from one poll to the next)
+        return [dict(copy.deepcopy(o), sequence_number=int(str(o["sequence_number"]))) if "sequence_number" in o else copy.deepcopy(o) for o in self.orders.values()]
 
 
 def run_betdaq_walk(desc):
